@@ -213,9 +213,10 @@ def DEPS(count=False, wrapper=False):
                         c.props = ()
                     # bodies of the dependency are verified once, in the `deps` unit; elsewhere only their
                     # contracts are used (modular verification), so the bodies are not re-verified
+                    if not fc.external_body:
+                        fc.note = 'dependency text: body verified in unit `deps`'
                     fc.external_body = True
                     fc.try_body = False
-                    fc.note = 'dependency text: body verified in unit `deps`'
                     fc.stmts = {}
                     fc.loops = {}
                     fc.iters = {}
